@@ -6,18 +6,24 @@
    ClearOnAdd = FALSE layers the new source over the existing state (then a source that
    redefines an already collapsed section is refused, as _integrate_config_source does) and
    is explored only to show that CacheCoherent is not vacuous.
+   A collapse can also be ABORTED: an exception that is not a configuration error (interrupt,
+   RecursionError, MemoryError) passes through it.  That changes nothing in the specification
+   (the sources are what they were); the design guards against recursive references with a set
+   of names being collapsed (refs), and has to release the name when the collapse is left that
+   way (ReleaseOnAbort = TRUE); the design that does not is explored to show ReadIsFresh /
+   GuardReleased are not vacuous.
    Every source over Names with inherit lists of length <= 1 and the key sets KeySets is
    considered; hist records the operations, so every reachable state is one history and
    TLC enumerates ALL histories up to MaxOps operations / MaxSources sources.  With EmitHist the
    complete ones of the form read .. add .. read are printed for replay on a real manager.          *)
 EXTENDS ConfigInherit, TLC
-CONSTANTS Names, KeySets, MaxSources, MaxOps, ClearOnAdd, EmitHist
+CONSTANTS Names, KeySets, MaxSources, MaxOps, ClearOnAdd, ReleaseOnAbort, EmitHist
 KSk1 == {{}, {"k1"}}      \* the key under observation; the driver gives every section its own class
 AllKeys == UNION KeySets
 NoRead == [st |-> "none", vals |-> [k \in AllKeys |-> NoOrigin]]
 
-VARIABLES cfg, nsrc, cache, hist, last
-vars == <<cfg, nsrc, cache, hist, last>>
+VARIABLES cfg, nsrc, cache, refs, hist, last
+vars == <<cfg, nsrc, cache, refs, hist, last>>
 
 \* a source: per name either nothing or one section
 Absent == [inh |-> <<>>, keys |-> {"-"}]
@@ -27,16 +33,23 @@ DefsIn(s, idx) == {[name |-> n, src |-> idx, inh |-> s[n].inh, keys |-> s[n].key
 Enc(s) == {<<n, s[n].inh, s[n].keys>> : n \in {x \in Names : s[x] # Absent}}
 
 Init == \E s \in Sources :
-          /\ cfg = DefsIn(s, 1) /\ nsrc = 1 /\ cache = [n \in {} |-> 0]
+          /\ cfg = DefsIn(s, 1) /\ nsrc = 1 /\ cache = [n \in {} |-> 0] /\ refs = {}
           /\ hist = <<[op |-> "init", name |-> "-", defs |-> Enc(s)]>> /\ last = NoRead
 
-Read(n) == /\ LET r == IF n \in DOMAIN cache THEN cache[n] ELSE Fresh(cfg, n, AllKeys) IN
+Recursive == [st |-> "Error", vals |-> [k \in AllKeys |-> NoOrigin]]     \* "Reference to n is recursive"
+Read(n) == /\ LET r == IF n \in refs THEN Recursive ELSE IF n \in DOMAIN cache THEN cache[n] ELSE Fresh(cfg, n, AllKeys) IN
                 /\ last' = r
                 \* only successful collapses are cached
                 /\ cache' = IF n \notin DOMAIN cache /\ r.st = "Values"
                             THEN [x \in DOMAIN cache \cup {n} |-> IF x = n THEN r ELSE cache[x]] ELSE cache
            /\ hist' = Append(hist, [op |-> "read", name |-> n, defs |-> {}])
-           /\ UNCHANGED <<cfg, nsrc>>
+           /\ UNCHANGED <<cfg, nsrc, refs>>
+\* a collapse of n that is left by a pass-through exception (only a collapse that does some work can be)
+Abort(n) == /\ n \notin DOMAIN cache /\ n \notin refs /\ DefsOf(cfg, n) # {}
+            /\ refs' = IF ReleaseOnAbort THEN refs ELSE refs \cup {n}
+            /\ hist' = Append(hist, [op |-> "abort", name |-> n, defs |-> {}])
+            /\ last' = NoRead
+            /\ UNCHANGED <<cfg, nsrc, cache>>
 Add(s) == /\ nsrc < MaxSources
           \* a source added before anything was collapsed is just a manager over more sources (ConfigInherit_MC)
           /\ \E k \in DOMAIN hist : hist[k].op = "read"
@@ -44,8 +57,8 @@ Add(s) == /\ nsrc < MaxSources
           /\ cfg' = cfg \cup DefsIn(s, nsrc + 1) /\ nsrc' = nsrc + 1
           /\ cache' = IF ClearOnAdd THEN [n \in {} |-> 0] ELSE cache
           /\ hist' = Append(hist, [op |-> "add", name |-> "-", defs |-> Enc(s)])
-          /\ last' = NoRead
-Next == Len(hist) <= MaxOps /\ ((\E n \in Names : Read(n)) \/ (\E s \in Sources : Add(s)))
+          /\ last' = NoRead /\ UNCHANGED refs
+Next == Len(hist) <= MaxOps /\ ((\E n \in Names : Read(n) \/ Abort(n)) \/ (\E s \in Sources : Add(s)))
 Spec == Init /\ [][Next]_vars
 
 \* every cached section is what a fresh collapse of the current sources gives
@@ -53,8 +66,12 @@ CacheCoherent == \A n \in DOMAIN cache : cache[n] = Fresh(cfg, n, AllKeys)
 \* ... hence every read is
 ReadIsFresh == (last # NoRead) => last = Fresh(cfg, hist[Len(hist)].name, AllKeys)
 
-\* a complete history that can tell a stale answer from a fresh one: read ... add ... read
+\* between two operations no name is left guarded
+GuardReleased == refs = {}
+
+\* a complete history that can tell a stale answer from a fresh one: read .. add .. read, or abort .. read
 Complete == /\ Len(hist) = MaxOps + 1 /\ hist[Len(hist)].op = "read"
-            /\ \E j, k \in DOMAIN hist : j < k /\ hist[j].op = "read" /\ hist[k].op = "add"
+            /\ \/ \E j, k \in DOMAIN hist : j < k /\ hist[j].op = "read" /\ hist[k].op = "add"
+               \/ \E j \in DOMAIN hist : hist[j].op = "abort"
 Emit == (EmitHist /\ Complete) => PrintT(<<"HIST", hist>>)
 =========================================================================
